@@ -512,7 +512,14 @@ def r7(ctx):
     cnt = [s for s in before if isinstance(s, (ast.Assign, ast.AugAssign)) and src(s.targets[0] if isinstance(s, ast.Assign) else s.target) == pc]
     others = [s for s in walk_no_nested(outer) if isinstance(s, (ast.Assign, ast.AugAssign)) and src(s.targets[0] if isinstance(s, ast.Assign) else s.target) == pc and s not in cnt]
     ok = False
-    if len(cnt) == 1 and not others:
+    if not cnt and not others and isinstance(outer.iter, ast.Call) and dotted(outer.iter.func) == 'enumerate' and isinstance(outer.target, ast.Tuple) \
+            and isinstance(outer.target.elts[0], ast.Name) and outer.target.elts[0].id == pc:
+        # the counter IS the enumeration index, started at 1: `for processed, reads in enumerate(it, 1)`
+        st = (outer.iter.args[1] if len(outer.iter.args) > 1 else next((k.value for k in outer.iter.keywords if k.arg == 'start'), None))
+        init = [s_ for s_ in f.body if isinstance(s_, ast.Assign) and src(s_.targets[0]) == pc and isinstance(s_.value, ast.Constant) and s_.value.value == 0 and s_.lineno < outer.lineno]
+        ok = isinstance(st, ast.Constant) and st.value == 1 and len(init) == 1
+        cnt = [outer]
+    elif len(cnt) == 1 and not others:
         c0 = cnt[0]
         if isinstance(c0, ast.Assign):
             en = isinstance(outer.iter, ast.Call) and dotted(outer.iter.func) == 'enumerate' and len(outer.iter.args) == 1 and not outer.iter.keywords
@@ -521,7 +528,7 @@ def r7(ctx):
         else:
             init = [s for s in f.body if isinstance(s, ast.Assign) and src(s.targets[0]) == pc and isinstance(s.value, ast.Constant) and s.value.value == 0 and s.lineno < outer.lineno]
             ok = isinstance(c0.op, ast.Add) and isinstance(c0.value, ast.Constant) and c0.value.value == 1 and len(init) == 1
-    ctx.emit('C01-R7', ok, LOADER, cnt[0] if cnt else outer, f'processed counter `{pc}` is advanced once per pair before the strategies run ({src(cnt[0]) if cnt else None})', key='processed-counter')
+    ctx.emit('C01-R7', ok, LOADER, cnt[0] if cnt else outer, f'processed counter `{pc}` is advanced once per pair before the strategies run ({src(cnt[0])[:60] if cnt else None})', key='processed-counter')
     if ctx.ix.exists(DEMUX):
         m = ctx.ix.module(DEMUX)
         closes = [src(c.func) for c in ast.walk(m.tree) if isinstance(c, ast.Call) and isinstance(c.func, ast.Attribute) and c.func.attr == 'close']
